@@ -1582,6 +1582,11 @@ void RegularExpression::prepare() {
 
 bool RegularExpression::doTokenOverlap(const Op* op, Token* token)
 {
+    // the comparisons below are case sensitive: they cannot tell that two
+    // tokens are disjoint when the match is going to ignore case
+    if (isSet(fOptions, IGNORE_CASE))
+        return true;
+
     if(op->getOpType()==Op::O_RANGE)
     {
         RangeToken* t1=(RangeToken*)op->getToken();
